@@ -787,12 +787,17 @@ void vf_run(const uint8_t *data, size_t len)
 
     Cursor cur(data, len);
     g_nvec = 1 + cur.u8() % 2;
-    size_t esA = ES[cur.u8() % 9];
+    // element size: codes 0-8 the classic table (existing seeds), 9-199 every size from 1 to 191, above that a few large ones
+    auto es_of = [](uint8_t c) -> size_t {
+        static const size_t BIG[8] = {100, 256, 257, 1000, 333, 512, 4096, 48};
+        return c < 9 ? ES[c] : c < 200 ? (size_t)(c - 8) : BIG[c % 8];
+    };
+    size_t esA = es_of(cur.u8());
     uint8_t flags = cur.u8();
     int prof = cur.u8() % NPROFILES;
     int base = cur.u8() % 3;
     uint8_t b5 = cur.u8();
-    size_t esB = (flags & 16) ? ES[b5 % 9] : esA;
+    size_t esB = (flags & 16) ? es_of(b5) : esA;
     int modeA = flags & 3, modeB = (flags >> 2) & 3;   // 0 none, 1 ctor+dtor, 2 ctor only, 3 dtor only
     M[0].es = esA; M[0].has_c = modeA == 1 || modeA == 2; M[0].has_d = modeA == 1 || modeA == 3;
     M[1].es = esB; M[1].has_c = modeB == 1 || modeB == 2; M[1].has_d = modeB == 1 || modeB == 3;
